@@ -50,6 +50,18 @@ pub fn check_pool(bank: &crate::svm::Bank, pool_key: &solana_program::pubkey::Pu
             out.push(("current_tick_not_the_tick_of_the_price".to_string(), format!("tick_current_index {t} but sqrt_price {} (tick of that price: {})", pool.sqrt_price, whirlpool::math::tick_index_from_sqrt_price(&pool.sqrt_price))));
         }
     }
+    // every tick has ONE home: tick arrays start at multiples of 88 x spacing (the array that contains MIN included),
+    // so no two arrays of a pool overlap - otherwise the net / gross of a tick is split between two accounts
+    {
+        let tia = 88 * s as i64;
+        for start in arrays.keys() {
+            let st = *start as i64;
+            acc.count("tick_array_start_checks");
+            if st.rem_euclid(tia) != 0 || st > codec::MAX_TICK_INDEX as i64 || st + tia <= codec::MIN_TICK_INDEX as i64 {
+                out.push(("tick_array_at_invalid_start".to_string(), format!("the pool owns a tick array starting at {st}, which is not a valid start index for spacing {s} (88 x spacing = {tia})")));
+            }
+        }
+    }
     acc.count("pool_liquidity_checks");
     if in_range > 0 {
         acc.count("pool_liquidity_checks_nonzero");
